@@ -342,7 +342,13 @@ def answerPredict (shared a b : String) : String :=
       let sg := !p.isEmpty && p.all sgc && p.any (onChangedSGroup va vb)
       let both := !p.isEmpty && mixAny && (p.zip mix).all (fun (c, ok) => ok || sgc c)
       s!"{b2s (!p.isEmpty && mix.all id)}{b2s sg}{b2s both}"
+    -- what the model's own run leaves behind, and whether all of it is of the class of F-C03h: services
+    -- that a TARGET service-group names while the device has a group of that name
+    let unref := unreferenced w
+    let unrefSg := !unref.isEmpty && unref.all (fun n => w.svcs.any (·.name == n) &&
+      vb.sgroups.any (fun gb => gb.members.contains n && va.sgroups.any (·.name == gb.name)))
     s!"n={cmds.length} accepted={k} err={(e.map enc).getD "-"} equiv={b2s eqv} mismatch={mismatch w vb w.rules vb.rules} " ++
+    s!"unref={",".intercalate (unref.map enc)} unrefsg={b2s unrefSg} " ++
     s!"wf={b2s (wellFormed sh w)} sgdropref={b2s ((refused.map (·.2)).getD false)} shape1={shape va cmds} shape2={shape w p2}" ++
     s!"\t{(refused.map (·.1)).getD "-"}\t{showCmds cmds}\t{p2s}"
   | _, _ => "bad-input"
